@@ -322,13 +322,13 @@ func c50Labels(thorough bool) []string {
 		"a", "xn--abc-", "xn--a-", "xn--", "ü", "xn--bcher-kva",
 		"a-b", "-a", "xn---", "xn----", "xn--a", "xn--ABC-", "xn--a-b-",
 		"XN--BCHER-KVA", "xn--bcher-kvA", "XN--ABC-", "Xn--abc-", "xn--80ak6aa92e", "xn--!", "xn--\u0080", "xn--ü", "xn--ü-", "xn--999999999", "xn--9", "xn--99999a",
-		"xn--zca", "xn--3xa", "xn--tda-", "xn--bcher-kva-", "xn--xn---epa",
+		"xn--zca", "xn--3xa", "xn--tda-", "xn--bcher-kva-", "xn--xn---epa", "xn--4db", "1",
 		"ß", "ς", "İ", "\u0301a", "u\u0308", "a\u200db", "\u0915\u094d\u200d", "\u0644\u200c\u0644",
 		"\u05d0", "\u0661", "a\u0661", "\U00010000", "\U0001f600", "A", "BÜCHER",
 	}
 	if thorough {
 		l = append(l, "ab--c", "xn--a-b", "xn---a", "xn--a--", "xn--0", "xn--ls8h", "xn--1ch", "xn--u-ccb", "xn--xn--abc--",
-			"\uff58\uff4e\uff0d\uff0dabc-", "\u00b9", "\ufb00", "_", "a_b", "1", "\u05d01", "1\u05d0", "\u0660\u06f0",
+			"\uff58\uff4e\uff0d\uff0dabc-", "\u00b9", "\ufb00", "_", "a_b", "\u05d01", "1\u05d0", "\u0660\u06f0",
 			strings.Repeat("a", 63), strings.Repeat("a", 64), "xn--"+strings.Repeat("a", 59)+"-", "ü"+strings.Repeat("a", 60))
 	}
 	return l
